@@ -107,6 +107,10 @@ def compute_features_2d(sigs, fs, f_range, compute_features_kwargs=None, axis=0,
 
     n_jobs = cpu_count() if n_jobs == -1 else n_jobs
 
+    # Check progress specifier is okay (with axis=None no progress bar is built)
+    if progress is not None and progress not in ['tqdm', 'tqdm.notebook']:
+        raise ValueError("Progress bar option not understood.")
+
     if axis == 0:
         # Compute each signal independently and in paralllel
         with Pool(processes=n_jobs) as pool:
